@@ -45,13 +45,13 @@ func (n *EvalLambdaNode) IsDynamic() bool {
 	return n.nodeEvaluator.IsDynamic()
 }
 
-func (n *EvalLambdaNode) EvalRegex(scope *Scope, _ ExecutionState) (*regexp.Regexp, error) {
+func (n *EvalLambdaNode) EvalRegex(scope *Scope, outer ExecutionState) (*regexp.Regexp, error) {
 	typ, err := n.Type(scope)
 	if err != nil {
 		return nil, err
 	}
 	if typ == ast.TRegex {
-		return n.nodeEvaluator.EvalRegex(scope, n.state)
+		return n.nodeEvaluator.EvalRegex(scope, outer.lambdaState(n))
 	}
 
 	return nil, ErrTypeGuardFailed{RequestedType: ast.TRegex, ActualType: typ}
@@ -65,73 +65,73 @@ func (n *EvalLambdaNode) EvalTime(scope *Scope, _ ExecutionState) (time.Time, er
 	return time.Time{}, ErrTypeGuardFailed{RequestedType: ast.TTime, ActualType: typ}
 }
 
-func (n *EvalLambdaNode) EvalDuration(scope *Scope, _ ExecutionState) (time.Duration, error) {
+func (n *EvalLambdaNode) EvalDuration(scope *Scope, outer ExecutionState) (time.Duration, error) {
 	typ, err := n.Type(scope)
 	if err != nil {
 		return 0, err
 	}
 	if typ == ast.TDuration {
-		return n.nodeEvaluator.EvalDuration(scope, n.state)
+		return n.nodeEvaluator.EvalDuration(scope, outer.lambdaState(n))
 	}
 
 	return 0, ErrTypeGuardFailed{RequestedType: ast.TDuration, ActualType: typ}
 }
 
-func (n *EvalLambdaNode) EvalString(scope *Scope, _ ExecutionState) (string, error) {
+func (n *EvalLambdaNode) EvalString(scope *Scope, outer ExecutionState) (string, error) {
 	typ, err := n.Type(scope)
 	if err != nil {
 		return "", err
 	}
 	if typ == ast.TString {
-		return n.nodeEvaluator.EvalString(scope, n.state)
+		return n.nodeEvaluator.EvalString(scope, outer.lambdaState(n))
 	}
 
 	return "", ErrTypeGuardFailed{RequestedType: ast.TString, ActualType: typ}
 }
 
-func (n *EvalLambdaNode) EvalFloat(scope *Scope, _ ExecutionState) (float64, error) {
+func (n *EvalLambdaNode) EvalFloat(scope *Scope, outer ExecutionState) (float64, error) {
 	typ, err := n.Type(scope)
 	if err != nil {
 		return 0, err
 	}
 	if typ == ast.TFloat {
-		return n.nodeEvaluator.EvalFloat(scope, n.state)
+		return n.nodeEvaluator.EvalFloat(scope, outer.lambdaState(n))
 	}
 
 	return 0, ErrTypeGuardFailed{RequestedType: ast.TFloat, ActualType: typ}
 }
 
-func (n *EvalLambdaNode) EvalInt(scope *Scope, _ ExecutionState) (int64, error) {
+func (n *EvalLambdaNode) EvalInt(scope *Scope, outer ExecutionState) (int64, error) {
 	typ, err := n.Type(scope)
 	if err != nil {
 		return 0, err
 	}
 	if typ == ast.TInt {
-		return n.nodeEvaluator.EvalInt(scope, n.state)
+		return n.nodeEvaluator.EvalInt(scope, outer.lambdaState(n))
 	}
 
 	return 0, ErrTypeGuardFailed{RequestedType: ast.TInt, ActualType: typ}
 }
 
-func (n *EvalLambdaNode) EvalBool(scope *Scope, _ ExecutionState) (bool, error) {
+func (n *EvalLambdaNode) EvalBool(scope *Scope, outer ExecutionState) (bool, error) {
 	typ, err := n.Type(scope)
 	if err != nil {
 		return false, err
 	}
 	if typ == ast.TBool {
-		return n.nodeEvaluator.EvalBool(scope, n.state)
+		return n.nodeEvaluator.EvalBool(scope, outer.lambdaState(n))
 	}
 
 	return false, ErrTypeGuardFailed{RequestedType: ast.TBool, ActualType: typ}
 }
 
-func (n *EvalLambdaNode) EvalMissing(scope *Scope, _ ExecutionState) (*ast.Missing, error) {
+func (n *EvalLambdaNode) EvalMissing(scope *Scope, outer ExecutionState) (*ast.Missing, error) {
 	typ, err := n.Type(scope)
 	if err != nil {
 		return nil, err
 	}
 	if typ == ast.TMissing {
-		return n.nodeEvaluator.EvalMissing(scope, n.state)
+		return n.nodeEvaluator.EvalMissing(scope, outer.lambdaState(n))
 	}
 
 	return nil, ErrTypeGuardFailed{RequestedType: ast.TBool, ActualType: typ}
